@@ -39,7 +39,43 @@ impl SignableBuilderService {
     #[verifier::external_body]
     pub fn compute_protocol_message(&self, t: SignedEntityType) -> (r: Result<ProtocolMessage, StdError>) ensures r is Ok ==> r->Ok_0 == message_for(self, t) { unimplemented!() }
 }
-pub struct Dependencies { pub certifier_service: CertifierService, pub signable_builder_service: SignableBuilderService }
+#[verifier::external_body] pub struct Certificate { _p: core::marker::PhantomData<u8> }
+#[derive(Clone, Copy)] pub struct Epoch(pub u64);
+pub struct TimePointE { pub epoch: Epoch }
+#[verifier::external_body] pub struct EpochServiceA { _p: core::marker::PhantomData<u8> }
+#[verifier::external_body] pub struct SignedEntityConfig { _p: core::marker::PhantomData<u8> }
+#[verifier::external_body] pub struct Counter { _p: core::marker::PhantomData<u8> }
+#[verifier::external_body] pub struct MetricsService { _p: core::marker::PhantomData<u8> }
+impl Counter { #[verifier::external_body] pub fn increment(&self) { unimplemented!() } }
+impl MetricsService { #[verifier::external_body] pub fn get_certificate_total_produced_since_startup(&self) -> &Counter { unimplemented!() } }
+/// the certifier's create_certificate / verify_certificate_chain answers (their contracts: unit certifier_service)
+pub uninterp spec fn certificate_created(c: &CertifierService, t: &SignedEntityType) -> Option<Certificate>;
+pub uninterp spec fn chain_verified(c: &CertifierService, e: Epoch) -> bool;
+/// the signed entity the configuration derives for this type at this time point (C17)
+pub uninterp spec fn entity_at(cfg: &SignedEntityConfig, t: &SignedEntityType, tp: &TimePoint) -> SignedEntityType;
+pub uninterp spec fn service_config(e: &EpochServiceA) -> SignedEntityConfig;
+impl CertifierService {
+    #[verifier::external_body]
+    pub fn create_certificate(&self, t: &SignedEntityType) -> (r: Result<Option<Certificate>, StdError>) ensures r is Ok ==> r->Ok_0 == certificate_created(self, t) { unimplemented!() }
+    #[verifier::external_body]
+    pub fn verify_certificate_chain(&self, e: Epoch) -> (r: Result<(), StdError>) ensures r is Ok ==> chain_verified(self, e) { unimplemented!() }
+}
+impl EpochServiceA {
+    #[verifier::external_body]
+    pub fn signed_entity_config(&self) -> (r: Result<&SignedEntityConfig, StdError>) ensures r is Ok ==> *r->Ok_0 == service_config(self) { unimplemented!() }
+}
+impl SignedEntityConfig {
+    #[verifier::external_body]
+    pub fn time_point_to_signed_entity(&self, t: &SignedEntityType, tp: &TimePoint) -> (r: Result<SignedEntityType, StdError>) ensures r is Ok ==> r->Ok_0 == entity_at(self, t, tp) { unimplemented!() }
+}
+/// `a != b` on SignedEntityType (derived PartialEq of an opaque type)
+#[verifier::external_body]
+fn types_differ(a: &SignedEntityType, b: &SignedEntityType) -> (r: bool) ensures r == (*a != *b) { unimplemented!() }
+/// `current_open_message.as_ref().map(|om| om.is_expired).unwrap_or(false)`
+fn expired_or_false(o: &Option<OpenMessage>) -> (r: bool) ensures r == (o is Some && o->Some_0.is_expired) {
+    match o { Some(om) => om.is_expired, None => false }
+}
+pub struct Dependencies { pub certifier_service: CertifierService, pub signable_builder_service: SignableBuilderService, pub epoch_service: EpochServiceA, pub metrics_service: MetricsService }
 pub struct AggregatorRunner { pub dependencies: Dependencies }
 pub uninterp spec fn available_types(r: &AggregatorRunner, tp: &TimePoint) -> Seq<SignedEntityType>;
 
@@ -92,6 +128,39 @@ impl AggregatorRunner {
     //@ rewrite /StdResult<OpenMessage>/ => /Result<OpenMessage, StdError>/
     //@ rewrite? /(?s)(?:slog::)?(?:debug|info|warn|trace|error)!\(.*?\);[ \t]*\n/ => //
     //@ spec ensures ret is Ok ==> created_open_message(&self.dependencies.certifier_service, signed_entity_type, protocol_message, ret->Ok_0)
+    //@end
+
+    //@extract file=mithril-aggregator/src/runtime/runner.rs fn=is_certificate_chain_valid within="impl AggregatorRunnerTrait for AggregatorRunner"
+    //@ rewrite /async fn/ => /fn/
+    //@ rewrite /\.await/ => //
+    //@ rewrite /time_point: &TimePoint/ => /time_point: &TimePointE/
+    //@ rewrite /StdResult<\(\)>/ => /Result<(), StdError>/
+    //@ rewrite? /(?s)(?:slog::)?(?:debug|info|warn|trace|error)!\(.*?\);[ \t]*\n/ => //
+    //@ rewrite? /(?s)\s*\.with_context\(\|\| "[^"]*"\)/ => //
+    //@ spec ensures ret is Ok ==> chain_verified(&self.dependencies.certifier_service, time_point.epoch)
+    //@end
+
+    //@extract file=mithril-aggregator/src/runtime/runner.rs fn=create_certificate within="impl AggregatorRunnerTrait for AggregatorRunner"
+    //@ rewrite /async fn/ => /fn/
+    //@ rewrite /\.await/ => //
+    //@ rewrite /StdResult<Option<Certificate>>/ => /Result<Option<Certificate>, StdError>/
+    //@ rewrite? /(?s)(?:slog::)?(?:debug|info|warn|trace|error)!\(.*?\);[ \t]*\n/ => //
+    //@ rewrite? /(?s)\s*\.with_context\(\|\| \{\s*format!\(.*?\)\s*\}\)/ => //
+    //@ spec ensures ret is Ok ==> ret->Ok_0 == certificate_created(&self.dependencies.certifier_service, signed_entity_type)
+    //@end
+
+    //@extract file=mithril-aggregator/src/runtime/runner.rs fn=is_open_message_outdated within="impl AggregatorRunnerTrait for AggregatorRunner"
+    //@ rewrite /async fn/ => /fn/
+    //@ rewrite /(?s)self\s*\.dependencies\s*\.epoch_service\s*\.read\(\)\s*\.await/ => /self.dependencies.epoch_service/
+    //@ rewrite /\.await/ => //
+    //@ rewrite /StdResult<bool>/ => /Result<bool, StdError>/
+    //@ rewrite? /(?s)\s*\.with_context\(\|\| format!\("[^"]*"(?:, \w+)?\)\)/ => //
+    //@ rewrite /current_open_message\.as_ref\(\)\.map\(\|om\| om\.is_expired\)\.unwrap_or\(false\)/ => /expired_or_false(&current_open_message)/
+    //@ rewrite /new_signed_entity_type != open_message_signed_entity_type/ => /types_differ(&new_signed_entity_type, &open_message_signed_entity_type)/
+    //@ spec ensures ret is Ok ==> ret->Ok_0 == (
+    //@ spec     // the configuration derives ANOTHER signed entity for this type at the latest time point, or the stored open message has expired
+    //@ spec     entity_at(&service_config(&self.dependencies.epoch_service), &open_message_signed_entity_type, last_time_point) != open_message_signed_entity_type
+    //@ spec     || (stored_open_message(&self.dependencies.certifier_service, &open_message_signed_entity_type) is Some && stored_open_message(&self.dependencies.certifier_service, &open_message_signed_entity_type)->Some_0.is_expired))
     //@end
 
     //@extract file=mithril-aggregator/src/runtime/runner.rs fn=get_current_non_certified_open_message within="impl AggregatorRunnerTrait for AggregatorRunner"
